@@ -123,6 +123,23 @@ fn compare(c: &Case, sched: &Schedule, api_sel: u64, pass: &mut Pass) -> Result<
             ));
         }
     }
+    // "no matter how the source fragments its reads": behind a declared length below 4 nothing is prescribed about WHAT
+    // the reader does next, but whatever it does must not depend on the fragmentation — the whole outcome sequence
+    // equals the one obtained when every read delivers everything
+    if reference.hostile_at.is_some() {
+        let (whole, _) = drive_blocking(&c.stream, c.storage, &Schedule::always_ready(), c.reader_kind, filter.as_ref(), slices);
+        if whole.len() != got.len() || whole.iter().zip(got.iter()).any(|(a, b)| !a.same(b)) {
+            return Err(viol!(
+                format!("reader:{}:fragmentation-dependent", api),
+                "{}: the outcomes depend on how the source fragments its reads: [{}] under this schedule, [{}] with whole reads; {}",
+                api,
+                got.iter().map(|o| o.short()).collect::<Vec<_>>().join(", "),
+                whole.iter().map(|o| o.short()).collect::<Vec<_>>().join(", "),
+                ctx()
+            ));
+        }
+        pass.classes.push("declared-length<4:fragmentation-independence");
+    }
     // classification of the schedule against the message layout
     let s = if c.storage { 16 } else { 0 };
     let splits_header = trace.boundaries.iter().any(|b| {
